@@ -178,7 +178,8 @@ Definition lit_class (lex : str) (dt lang : option str) : lclass :=
 Definition dt_or_string (dt : option str) : str := match dt with Some d => d | None => xsd_string end.
 Definition lang_or_empty (l : option str) : str := match l with Some s => s | None => [] end.
 
-(* Literal.__gt__ on two literals of the fragment *)
+(* Literal.__gt__ on two literals of the fragment (language tags compared lower-cased, as repaired for F7j;
+   the repaired NaN and ill-typed rules never apply inside the fragment) *)
 Definition lit_gt (lex : str) (dt lang : option str) (lex' : str) (dt' lang' : option str) : option bool :=
   match lit_class lex dt lang, lit_class lex' dt' lang' with
   | COther, _ | _, COther => None
@@ -187,13 +188,16 @@ Definition lit_gt (lex : str) (dt lang : option str) (lex' : str) (dt' lang' : o
       let d := dt_or_string dt in
       let d' := dt_or_string dt' in
       if negb (str_eqb d d') then Some (str_ltb d' d)
-      else if negb (ostr_eqb lang lang') then
-        match lang, lang' with
-        | None, _ => Some false
-        | _, None => Some true
-        | Some l, Some l' => Some (str_ltb l' l)
-        end
-      else Some (str_ltb lex' lex)                   (* both values are str *)
+      else
+        let l := lang_key lang in
+        let l' := lang_key lang' in
+        if negb (ostr_eqb l l') then
+          match l, l' with
+          | None, _ => Some false
+          | _, None => Some true
+          | Some x, Some y => Some (str_ltb y x)
+          end
+        else Some (str_ltb lex' lex)                 (* both values are str *)
   end.
 
 (* Literal.eq on two literals of the fragment *)
@@ -210,16 +214,36 @@ Definition lit_eqv (lex : str) (dt lang : option str) (lex' : str) (dt' lang' : 
 (* a < b  (None: a pair of literals outside the fragment) *)
 Definition term_lt (a b : term) : option bool :=
   match a, b with
-  | Lit lex dt lang, Lit lex' dt' lang' =>
-      match lit_gt lex dt lang lex' dt' lang', lit_eqv lex dt lang lex' dt' lang' with
-      | Some g, Some e => Some (negb g && negb e)
-      | _, _ => None
-      end
+  | Lit lex dt lang, Lit lex' dt' lang' => lit_gt lex' dt' lang' lex dt lang   (* other.__gt__(self), as repaired for F7l *)
   | Lit _ _ _, _ => Some false
   | _, _ =>
       if kind_eqb (kind_of a) (kind_of b) then Some (str_ltb (term_str a) (term_str b))
       else Some (N.ltb (ord_of (kind_of a)) (ord_of (kind_of b)))
   end.
+
+(* a > b : Identifier.__gt__ / Literal.__gt__ called directly *)
+Definition term_gt (a b : term) : option bool :=
+  match a, b with
+  | Lit lex dt lang, Lit lex' dt' lang' => lit_gt lex dt lang lex' dt' lang'
+  | Lit _ _ _, _ => Some true
+  | _, _ =>
+      if kind_eqb (kind_of a) (kind_of b) then Some (str_ltb (term_str b) (term_str a))
+      else Some (N.ltb (ord_of (kind_of b)) (ord_of (kind_of a)))
+  end.
+
+(* the equality __le__ / __ge__ fall back on: == for identifiers, Literal.eq (value space) for literals *)
+Definition term_eqv (a b : term) : option bool :=
+  match a, b with
+  | Lit lex dt lang, Lit lex' dt' lang' => lit_eqv lex dt lang lex' dt' lang'
+  | Lit _ _ _, _ => Some false
+  | _, _ => Some (term_eqb a b)
+  end.
+
+(* a <= b, a >= b : r = __lt__ (resp. __gt__); if r: True; else the equality above *)
+Definition term_le (a b : term) : option bool :=
+  match term_lt a b, term_eqv a b with Some l, Some e => Some (l || e) | _, _ => None end.
+Definition term_ge (a b : term) : option bool :=
+  match term_gt a b, term_eqv a b with Some g, Some e => Some (g || e) | _, _ => None end.
 
 (* ------------------------------------------------------------------ *)
 (* n3 text *)
@@ -567,18 +591,39 @@ Definition wres_eqb (m i : wres) : bool :=      (* model answer first; WAny is a
 
 Inductive cmp := CLt | CNlt | CRaise.       (* a < b is True / is False / raises *)
 
+(* a term whose < against every other such term is modelled *)
+Definition modelled (t : term) : bool :=
+  match t with
+  | Lit lex dt lang => match lit_class lex dt lang with COther => false | _ => true end
+  | _ => true
+  end.
+
+(* a comparison sort that uses only < , as list.sort / sorted() use only __lt__: stable insertion sort
+   (the input is read from the right; an element is put before the elements it ties with) *)
+Fixpoint ins {A} (lt : A -> A -> bool) (x : A) (l : list A) : list A :=
+  match l with
+  | [] => [x]
+  | y :: r => if lt y x then y :: ins lt x r else x :: y :: r
+  end.
+Fixpoint isort {A} (lt : A -> A -> bool) (l : list A) : list A :=
+  match l with [] => [] | x :: r => ins lt x (isort lt r) end.
+
 Record case := { c_terms : list term;
-                 c_hash : list (str * Z);       (* oracle: Python's hash of the strings involved *)
-                 c_ill : list bool }.           (* oracle, per term: a literal rdflib holds to be ill-typed
-                                                   (ill_typed, or no value for a recognised datatype); only used by kf *)
+                 c_hash : list (str * Z) }.     (* oracle: Python's hash of the strings involved *)
 
 Record obs := { o_eq : list (list bool);
                 o_hash : list (option Z);         (* None: a string missing in the oracle *)
                 o_lt : list (list (option cmp));  (* None: not modelled *)
                 o_ne : list (list bool);          (* a != b *)
+                o_gt : list (list (option cmp));  (* a > b , a <= b , a >= b *)
+                o_le : list (list (option cmp));
+                o_ge : list (list (option cmp));
+                o_sorted : option (option (list nat));
+                   (* sorted(range(n), key = the term's own <): None not modelled, Some None raises, else the indices *)
                 o_flags : list (option bool) }.   (* conformance flags computed by the harness: sorted() of the mixed list;
                                                      sorted() of the literals of each datatype; set/dict collapse;
-                                                     > <= >= against < and == *)
+                                                     > <= >= against < and ==; a tie of two literals of one datatype
+                                                     is value equality (Literal.eq) unless a NaN is involved *)
 
 Fixpoint hash_get (tab : list (str * Z)) (s : str) : option Z :=
   match tab with
@@ -602,20 +647,6 @@ Definition hash_of (tab : list (str * Z)) (t : term) : option Z :=
 Definition cmp_of (o : option bool) : option cmp :=
   match o with Some true => Some CLt | Some false => Some CNlt | None => None end.
 
-(* known findings of this suite.  F7l: a NaN-valued numeric literal is < everything including itself
-   (Literal.__lt__ = not __gt__ and not eq), and a signalling NaN still makes < raise *)
-Definition s_snan : str := [115; 110; 97; 110].
-Definition decimal_nan (t : term) : bool :=
-  match t with
-  | Lit lex (Some d) _ =>
-      smem d infnan_types &&
-      (let u := strip lex in
-       let u := match u with c :: r => if N.eqb c 43 || N.eqb c 45 then r else u | [] => u end in
-       let u := lower u in
-       prefixb s_nan u || prefixb s_snan u)
-  | _ => false
-  end.
-
 (* two literals of one datatype family: the same datatype IRI (all language-tagged and plain literals together) *)
 Definition same_dt (a b : term) : bool :=
   match a, b with
@@ -626,42 +657,31 @@ Definition same_dt (a b : term) : bool :=
 Definition public (t : term) : bool := match t with Lit _ _ (Some []) => false | _ => true end.
 Definition same_family (a b : term) : bool := same_dt a b && public a && public b.
 
-(* F7i: xsd:duration / xsd:yearMonthDuration literals (isodate Duration against timedelta) are not ordered consistently *)
-Definition ym_duration (t : term) : bool :=
-  match t with
-  | Lit _ (Some d) _ => str_eqb d xsd_duration || str_eqb d xsd_yearmonthduration
-  | _ => false
-  end.
-(* F7j: tags that differ only in case: == ignores case, Literal.__gt__ orders the tags case-sensitively *)
+(* tags that differ only in case (no longer a finding; kept for statistics) *)
 Definition case_variant (a b : term) : bool :=
   match a, b with
   | Lit _ _ (Some l), Lit _ _ (Some l') => negb (str_eqb l l') && str_eqb (lower l) (lower l')
   | _, _ => false
   end.
-(* F7k: an ill-typed literal is ordered by its lexical form among literals of its datatype that are ordered by value *)
-Fixpoint ill_in_family (ts : list term) (ill : list bool) (all : list term) : bool :=
-  match ts, ill with
-  | t :: r, b :: rb => (b && (2 <? N.of_nat (length (filter (same_family t) all)))) || ill_in_family r rb all
-  | _, _ => false
-  end.
 
-Definition kf (c : case) : N :=
-  let ts := c_terms c in
-  if existsb decimal_nan ts then 3
-  else if 1 <? N.of_nat (length (filter ym_duration ts)) then 8
-  else if existsb (fun a => existsb (case_variant a) ts) ts then 9
-  else if ill_in_family ts (c_ill c) ts then 10
-  else 0.
+(* < read off a matrix *)
+Definition is_lt (e : option cmp) : bool := match e with Some CLt => true | _ => false end.
+Definition mlt_of (L : list (list (option cmp))) (i j : nat) : bool := is_lt (nth j (nth i L []) None).
+
+Definition sortable (ts : list term) : bool := forallb modelled ts.
 
 Definition model_obs (c : case) : obs :=
   let ts := c_terms c in
+  let L := map (fun a => map (fun b => cmp_of (term_lt a b)) ts) ts in
   {| o_eq := map (fun a => map (term_eqb a) ts) ts;
      o_hash := map (hash_of (c_hash c)) ts;
-     o_lt := map (fun a => map (fun b => cmp_of (term_lt a b)) ts) ts;
+     o_lt := L;
+     o_sorted := if sortable ts then Some (Some (isort (mlt_of L) (seq 0 (length ts)))) else None;
      o_ne := map (fun a => map (fun b => negb (term_eqb a b)) ts) ts;       (* Identifier.__ne__ = not __eq__ *)
-     o_flags := [ (if N.eqb (kf c) 3 then None else Some true);            (* a signalling NaN makes sorted() raise *)
-                  (if N.eqb (kf c) 0 then Some true else None);             (* every ordering finding shows here *)
-                  Some true; Some true ] |}.
+     o_gt := map (fun a => map (fun b => cmp_of (term_gt a b)) ts) ts;
+     o_le := map (fun a => map (fun b => cmp_of (term_le a b)) ts) ts;
+     o_ge := map (fun a => map (fun b => cmp_of (term_ge a b)) ts) ts;
+     o_flags := [ Some true; Some true; Some true; Some true; Some true ] |}.
 
 Definition ocmp_eqb (m i : option cmp) : bool :=
   match m, i with
@@ -686,6 +706,15 @@ Definition obs_eqb (m i : obs) : bool :=
   && list_eqb oz_eqb (o_hash m) (o_hash i)
   && list_eqb (list_eqb ocmp_eqb) (o_lt m) (o_lt i)
   && list_eqb (list_eqb Bool.eqb) (o_ne m) (o_ne i)
+  && list_eqb (list_eqb ocmp_eqb) (o_gt m) (o_gt i)
+  && list_eqb (list_eqb ocmp_eqb) (o_le m) (o_le i)
+  && list_eqb (list_eqb ocmp_eqb) (o_ge m) (o_ge i)
+  && (match o_sorted m, o_sorted i with
+      | None, _ => true
+      | Some None, Some None => true
+      | Some (Some p), Some (Some q) => list_eqb Nat.eqb p q
+      | _, _ => false
+      end)
   && list_eqb obool_eqb (o_flags m) (o_flags i).
 
 (* --- the specification, over what was observed --- *)
@@ -726,7 +755,6 @@ Definition lt_entry_ok (a b : term) (e : option cmp) : bool :=
   end.
 
 (* what reproducible sorting needs of < inside one datatype family, on the observed matrix *)
-Definition is_lt (e : option cmp) : bool := match e with Some CLt => true | _ => false end.
 Definition family_ok (ts : list term) (L : list (list (option cmp))) : bool :=
   let t := fun i => nth i ts (IRI []) in
   let lt := fun i j => is_lt (nthd L i j None) in
@@ -765,8 +793,67 @@ Definition ne_ok (c : case) (o : obs) : bool :=
   && forallb (fun i => forallb (fun j =>
         Bool.eqb (nthd (o_ne o) i j false) (negb (nthd (o_eq o) i j false))) (idx ts)) (idx ts).
 
+(* sorted(): whenever the observed < is a strict weak order on the terms of the case (every comparison answers,
+   irreflexive, transitive, "not less" transitive), the result must be a permutation of the input without
+   inversion in which ties keep their input order - by C07_stable_sort_unique there is exactly one such list *)
+Definition is_some_cmp (e : option cmp) : bool := match e with Some CLt | Some CNlt => true | _ => false end.
+Definition swo_matrix (n : nat) (L : list (list (option cmp))) : bool :=
+  let ix := seq 0 n in
+  let lt := mlt_of L in
+  forallb (fun i => forallb (fun j => is_some_cmp (nth j (nth i L []) None)) ix) ix
+  && forallb (fun i => negb (lt i i)) ix
+  && forallb (fun i => forallb (fun j => forallb (fun k => implb (lt i j && lt j k) (lt i k)) ix) ix) ix
+  && forallb (fun i => forallb (fun j => forallb (fun k => implb (negb (lt i j) && negb (lt j k)) (negb (lt i k))) ix) ix) ix.
+
+Fixpoint sortedb (lt : nat -> nat -> bool) (p : list nat) : bool :=
+  match p with
+  | [] => true
+  | x :: r => forallb (fun y => negb (lt y x)) r && sortedb lt r
+  end.
+Definition tieb (lt : nat -> nat -> bool) (a b : nat) : bool := negb (lt a b) && negb (lt b a).
+Definition stableb (lt : nat -> nat -> bool) (n : nat) (p : list nat) : bool :=
+  forallb (fun x => list_eqb Nat.eqb (filter (tieb lt x) p) (filter (tieb lt x) (seq 0 n))) (seq 0 n).
+Definition is_perm (n : nat) (p : list nat) : bool :=
+  Nat.eqb (length p) n && forallb (fun i => existsb (Nat.eqb i) p) (seq 0 n).
+
+(* > , <= , >= : whenever a term that is not a literal is involved they are what < and == say
+   (a > b is b < a; a <= b is a < b or a == b; a >= b is b < a or a == b); > on two literals never raises.
+   (<= and >= on two literals consult Literal.eq, which by design raises TypeError when it cannot decide whether two
+   lexical forms of an unknown or ill-typed datatype denote one value: nothing is demanded there.) *)
+Definition op_entry_ok (want : option bool) (e : option cmp) : bool :=
+  match want, e with
+  | Some true, Some CLt => true          (* CLt / CNlt: the operator answered True / False *)
+  | Some false, Some CNlt => true
+  | Some _, _ => false
+  | None, Some CRaise => false
+  | None, _ => true
+  end.
+Definition op_entry_lax (want : option bool) (e : option cmp) : bool :=
+  match want with Some _ => op_entry_ok want e | None => true end.
+Definition ops_ok (c : case) (o : obs) : bool :=
+  let ts := c_terms c in
+  let n := length ts in
+  let t := fun i => nth i ts (IRI []) in
+  shape_ok n (o_gt o) && shape_ok n (o_le o) && shape_ok n (o_ge o)
+  && forallb (fun i => forallb (fun j =>
+       let eq := key_same (t i) (t j) in
+       op_entry_ok (lt_required (t j) (t i)) (nthd (o_gt o) i j None)
+       && op_entry_lax (option_map (fun v => v || eq) (lt_required (t i) (t j))) (nthd (o_le o) i j None)
+       && op_entry_lax (option_map (fun v => v || eq) (lt_required (t j) (t i))) (nthd (o_ge o) i j None))
+     (idx ts)) (idx ts).
+
+Definition sorted_ok (c : case) (o : obs) : bool :=
+  let n := length (c_terms c) in
+  if swo_matrix n (o_lt o) then
+    match o_sorted o with
+    | Some (Some p) => is_perm n p && sortedb (mlt_of (o_lt o)) p && stableb (mlt_of (o_lt o)) n p
+    | Some None => false
+    | None => false
+    end
+  else true.
+
 Definition spec_ok (c : case) (o : obs) : bool :=
-  spec_base c o && family_ok (c_terms c) (o_lt o) && ne_ok c o.
+  spec_base c o && family_ok (c_terms c) (o_lt o) && ne_ok c o && sorted_ok c o && ops_ok c o.
 
 (* ================================================================== *)
 (* Suite "pickler": a sequence of terms through ONE rdflib.store.NodePickler (a fresh one, then Store().node_pickler):
